@@ -43,16 +43,17 @@ type backed interface{ VerifBacking() []int }
 type kind struct {
 	name, coq string
 	safe      bool
+	other     bool // element type other than int (elemtypes.go): runs a share of every stream
 	mk        func() list
 }
 
 var kinds = []kind{
-	{"arraylist", "KArray", false, func() list { return arraylist.New[int]() }},
-	{"arraylist.Safe", "KArray", true, func() list { return arraylist.NewSafe[int]() }},
-	{"doublylinkedlist", "KDList", false, func() list { return doublylinkedlist.New[int]() }},
-	{"doublylinkedlist.Safe", "KDList", true, func() list { return doublylinkedlist.NewSafe[int]() }},
-	{"singlylinkedlist", "KSList", false, func() list { return singlylinkedlist.New[int]() }},
-	{"singlylinkedlist.Safe", "KSList", true, func() list { return singlylinkedlist.NewSafe[int]() }},
+	{name: "arraylist", coq: "KArray", safe: false, mk: func() list { return arraylist.New[int]() }},
+	{name: "arraylist.Safe", coq: "KArray", safe: true, mk: func() list { return arraylist.NewSafe[int]() }},
+	{name: "doublylinkedlist", coq: "KDList", safe: false, mk: func() list { return doublylinkedlist.New[int]() }},
+	{name: "doublylinkedlist.Safe", coq: "KDList", safe: true, mk: func() list { return doublylinkedlist.NewSafe[int]() }},
+	{name: "singlylinkedlist", coq: "KSList", safe: false, mk: func() list { return singlylinkedlist.New[int]() }},
+	{name: "singlylinkedlist.Safe", coq: "KSList", safe: true, mk: func() list { return singlylinkedlist.NewSafe[int]() }},
 }
 
 // ---------- stdout capture: os.Stdout is a scratch file, the file offset is read around every call ----------
@@ -343,6 +344,8 @@ func main() {
 	}()
 	w := vhlib.NewWriter(o.Out, "From VF Require Import C07.Model C07.Check.\nLocal Open Scope Z_scope.", "case", "mismatches", 60)
 	thorough := o.Thorough()
+	kinds := append(append([]kind{}, kinds...), otherKinds(rng)...)
+	share := func(k kind) bool { return k.other && !thorough } // quick tier: a share of each stream for the other element types
 
 	// ---- 1. Insert of a batch of 0..4 values at every index in [-1, size+1] of lists of several lengths ----
 	lens := []int{0, 1, 2, 5, 12, 13}
@@ -354,8 +357,14 @@ func main() {
 			if k.safe && !thorough && n != 2 && n != 13 {
 				continue
 			}
+			if share(k) && (n != 13 || k.safe) {
+				continue
+			}
 			for i := -1; i <= n+1; i++ {
 				for b := 0; b <= 4; b++ {
+					if share(k) && b != 0 && b != 3 {
+						continue
+					}
 					r := rng.Fork()
 					c := newCase(k)
 					c.fill(r, n)
@@ -376,6 +385,9 @@ func main() {
 				continue
 			}
 			for i := -1; i <= n+1; i++ {
+				if share(k) && (k.safe || (i+1)%3 != 0) {
+					continue
+				}
 				r := rng.Fork()
 				c := newCase(k)
 				c.fill(r, n)
@@ -407,6 +419,9 @@ func main() {
 		for fi, n := range fills {
 			for oi, first := range firsts {
 				if k.safe && !thorough && (fi+oi)%3 != 0 {
+					continue
+				}
+				if share(k) && (fi+oi)%6 != 0 {
 					continue
 				}
 				r := rng.Fork()
@@ -450,6 +465,9 @@ func main() {
 			if k.safe && !thorough {
 				nw = walks / 3
 			}
+			if share(k) {
+				nw = 1
+			}
 			for t := 0; t < nw; t++ {
 				r := rng.Fork()
 				c := newCase(k)
@@ -464,7 +482,7 @@ func main() {
 		depth = 2
 	}
 	for _, k := range kinds {
-		if k.safe {
+		if k.safe || share(k) {
 			continue
 		}
 		for _, start := range [][]int{{}, {0}, {2, 0, 1}} {
@@ -494,7 +512,7 @@ func main() {
 			rec(nil, len(start), depth)
 		}
 	}
-	w.Close(o, "one case = one list (array / doubly / singly linked, plain or Safe wrapper) driven through a call sequence; every call records (result, bytes written to stdout), every mutator is followed by Values, Size, Empty, Get i for i in [-1,size], IndexOf and Contains for each of 0..4 and, for the array list, the backing array; distinct = distinct case terms; non-trivial = at least two calls or a non-empty list reached")
+	w.Close(o, "one case = one list (array / doubly / singly linked, plain or Safe wrapper; element type int, and for a share of every stream *T with distinct and shared pointers to equal structs, any holding slices / structs with slices / maps, string - encoded by content class) driven through a call sequence; every call records (result, bytes written to stdout), every mutator is followed by Values, Size, Empty, Get i for i in [-1,size], IndexOf and Contains for each of 0..4 and, for the array list, the backing array; distinct = distinct case terms; non-trivial = at least two calls or a non-empty list reached")
 }
 
 func alphabet(n int) []op {
